@@ -204,13 +204,19 @@ def shrink_text(text, bad, budget=400):
 
 
 _shrunk = {}
+_corr_shrinks = [0]
 
 
 def report_property(ctx, text, indent, entry, res):
     cls = res[0].split(":")[0]
     # the same failure class is shrunk at most 3 times per run; afterwards it is only counted
     seen = _shrunk.setdefault(res[0], [])
-    if len(seen) >= 3 or (seen and res[0].startswith("member-description-dropped")):
+    total = sum(len(v) for v in _shrunk.values())
+    if not seen and (total >= 25 or ctx.out_of_time()):
+        ctx.fail(res[0] + ":unshrunk", "print o parse is not the identity on the real code: " + res[0],
+                 {"part": PART, "text": L.cps(text), "indent": indent if isinstance(indent, int) else L.cps(indent), "entry": entry})
+        return
+    if len(seen) >= 2 or (seen and res[0].startswith("member-description-dropped")):
         ctx.fail(seen[0], "print o parse is not the identity on the real code: " + res[0], {})
         return
 
@@ -259,7 +265,11 @@ def check_corr(ctx, cases):
         ctx.stat("corr")
         if impl != model:
             small = text
-            if len(text) < 4000:
+            _corr_shrinks[0] += 1
+            if _corr_shrinks[0] > 40:
+                ctx.fail("corr:print:unshrunk", "model printer and ASTPrinter differ (further cases, not shrunk)", {}, kind="correspondence")
+                continue
+            if len(text) < 4000 and _corr_shrinks[0] <= 4 and not ctx.out_of_time():
                 def bad(x):
                     tt = real_parse(x, entry)
                     if tt[0] != "ok":
@@ -445,6 +455,8 @@ def process(ctx, texts, all_indents=True):
     rng = ctx.rng
     corr = []
     for text, entry, src in texts:
+        if ctx.out_of_time():
+            break
         r = real_parse(text, entry)
         ctx.count()
         if r[0] != "ok":
@@ -477,6 +489,7 @@ def process(ctx, texts, all_indents=True):
 def run(ctx):
     rng = ctx.rng
     _shrunk.clear()
+    _corr_shrinks[0] = 0
     t_end = ctx.time_left()
     process(ctx, [(t, e, "corpus") for t, e in corpus_texts()])
     # whole fixtures (one pass, all indents for the small ones)
